@@ -1962,6 +1962,15 @@ class Compiler:
         if local:
             outer[:] = list(self._enter_assignment(names)) + outer
 
+        # The entry of an enclosing loop over the same name(s) is put
+        # back when this loop is finished.
+        backup = identifier("__repeat", id(node))
+        outer += template(
+            "try: BACKUP = getname('repeat')[key]\n"
+            "except KeyError: BACKUP = __marker",
+            BACKUP=backup, key=key
+        )
+
         outer += template(
             "__iterator, INDEX = getname('repeat')(key, __iterator)",
             key=key, INDEX=index
@@ -1994,6 +2003,11 @@ class Compiler:
             body=assignment + inner,
             orelse=[],
         )]
+
+        outer += template(
+            "if BACKUP is not __marker: getname('repeat')[key] = BACKUP",
+            BACKUP=backup, key=key
+        )
 
         # Finally, clean up assignment if it's local
         if outer:
